@@ -20,6 +20,8 @@ func init() {
 		Rules: []RuleDef{
 			{ID: "C19.R1", Text: "round: return at the first successful ping; panic ⇔ five consecutive failures; after a cancelled wait no further ping; no state carried between rounds", Run: c19r1},
 			{ID: "C19.R2", Text: "every wait is cancellable: blocking operations in run/performHealthCheck are selects with a ctx.Done() case; no time.Sleep", Run: c19r2},
+			{ID: "C19.R5", Text: "Stop undoes a Start that has happened: HealthCheck.Start is a plain synchronous call of the client's start path, never deferred to a timer, goroutine or function value", Run: healthStartPlain},
+			{ID: "C19.R6", Text: "a ping's answer is that ping's answer: NewHealthCheck wires the client it was given into the checker unchanged (no adapter between the round and Client.Ping)", Run: constructorWiring(wireHealth)},
 			{ID: "C19.R4", Text: "what counts as a failed ping: Client.Ping reports an error unless both the data and the management service answered (same rule as C20.R5)", Run: pingOutcome},
 			{ID: "C19.R3", Text: "Start/Stop entirely inside Once.Do; wg.Add(1) before go run; run defers wg.Done; Stop = cancel then wg.Wait; Once fields never reassigned", Run: c19r3},
 		},
